@@ -21,7 +21,7 @@ let () = register "effects" (fun () ->
   let ops = next_list (fun () ->
     let c = cls_of_int (next ()) in let p = next_bool () in let s = next_bool () in let hc = next_bool () in
     let sv = next_bool () in { o_cls = c; o_pass_opts = p; o_sup = s; o_hc = hc; o_solve = sv }) in
-  let h0 = { h_graph = []; h_opts = d; h_has_ext = has_ext; h_ext = []; h_sopts = []; h_cons = []; h_ign = []; h_starts = [];
+  let h0 = { h_graph = []; h_opts = d; h_has_ext = has_ext; h_ext = []; h_sopts = []; h_cons = []; h_ign = []; h_starts = []; h_sup = [];
              h_ends = []; h_defaults = [] } in
   let rec go h acc = function
     | [] -> List.rev acc
